@@ -22,6 +22,9 @@ props = {
  "C03": dict(
    text="Theorem c03_trust: for every metadata shape (any number of entities, role descriptors and KeyDescriptors), claimed issuer, embedded certificates, only_use_keys_in_metadata setting, enveloped or detached signature and every ideal signature scheme (Section hypotheses verify_spec, sign_inj; instantiated by a term algebra in c03_instance) the modelled certificate selection + verification loop accepts only under a certificate published for signing (or without use) under the claimed issuer, uses the embedded certificate only as the opt-in fallback when metadata has no signing key for the issuer, hands the verifier only such certificates, and accepts signatures of published signing keys (induction over the lists). Correspondence: the complete 720-cell product of the quantifier (+180 altered-content rows) on real RSA through SP and IdP entry points; observed accept/reject AND which certificate files the xmlsec1 stand-in was handed.",
    note="Crypto idealised (hypotheses named in the theorem statement); xmlsec1 stand-in semantics for --enabled-key-data/--pubkey-cert-pem; single metadata source (store order is C11).", design="6/C03"),
+ "C08": dict(
+   text="16 closed theorems over metadata of any size (lists of sources, entities, descriptors, endpoints; induction): c08_destinations_from_metadata (forall metadata and operation - IdP answering a request, pick_binding, _sso_location, prepare_for_(negotiated_)authenticate, do_logout over any IdP list, verify_return - whatever is selected is a published (binding, location) pair of the party concerned, chosen by the request's URL/index when given), c08_pick_refuses_url/_index (unregistered URL/index => exception, never a destination), c08_sso_sound, c08_slo_sound, c08_disco_sound/_complete/_exact, c08_binding_origin, c08_spec_reflect, c08_disco_v0_refuted (the pinned snapshot's inverted verify_return; repaired by a fix: commit). Correspondence: ~3700 cases over 20 random metadata worlds incl. the complete URL x index x ProtocolBinding product, real Server.response_args / pick_binding, Saml2Client.prepare_for_authenticate / do_logout (prepared HTTP message inspected) and DiscoveryServer.verify_return.",
+   note="Metadata modelled as loaded (mdie strips attribute values); completeness theorems are single-source (multi-source fall-through is C11's subject); stub transport for logout.", design="6/C08"),
 }
 checks = []
 for pid, d in sorted(props.items()):
